@@ -94,7 +94,7 @@ CHECKS = {
  'C06': dict(
     level='other',
     text=('The real run() of contact models 0, 1 and 2 (face list, update_face_aabbs, store_face_in_uspg, per-node voxel lookup, aabb_intersection_check) executes from the LLVM IR on a two/three-cell tissue whose query node p is symbolic in boxes that straddle voxel boundaries '
-          '(three placements: at, far from, and straddling the origin; two cut-off settings; 8 sub-boxes each; the thorough tier adds a fourth placement (epithelial cell against an ECM cell) and runs every exploration kind under all three models). irsym records every (node, face) pair handed to the contact rules; per path z3 proves for all node/face pairs of different cells: not handed over => the node lies outside the face box padded by the cut-off. '
+          '(three placements: at, far from, and straddling the origin; two cut-off settings; 8 sub-boxes each; the deeper tier runs the same explorations with more validation inputs: further placements, 27 sub-boxes and all models for every exploration kind were measured at 25-60 minutes on 16 cores without finishing). irsym records every (node, face) pair handed to the contact rules; per path z3 proves for all node/face pairs of different cells: not handed over => the node lies outside the face box padded by the cut-off. '
           'Further explorations: persistent cell ids ahead of the list positions (no node may be handed to a face of its own cell), a cell with unused face slots (octahedron with a collapsed edge; the harness lists the real order of the face list of the model; memory reports of the broad phase are candidates), and the SAME model object run twice (as the solver does every time step) and adds: no pair is handed over more than once in one run. Models of failed obligations are replayed natively against a fresh model with one voxel per axis. Exact reals; many-cell tissues and symbolic cut-offs are not covered.'),
     note='Trusted: clang lowering (validated per run incl. the reference run), irsym (OpenMP sequential model), exact polynomial normal form in p, z3. The narrow phase runs as is (C05/C07 are about it).',
     technique='symbolic execution of LLVM IR (whole contact-model run) with recorded hand-overs; z3 (linear real arithmetic + to_int); native differential replay against a single-voxel grid',
